@@ -302,6 +302,69 @@ func checkC16(p *Prog, r *Report) {
 
 	/* 3. cleanPerl. */
 	checkCleanPerl(p, rText, cp)
+	/* Every script is converted: a search which can answer -1 (IndexFunc on
+	a script which is all comments, Index on an empty one) is not used as an
+	index or a slice bound before it has been compared with something. */
+	{
+		rIdx := r.Rule("cleaner-total", "in the Perl cleaner no result of an Index-style search (−1 when nothing is found) is used as an index or slice bound without a test of it first")
+		n := 0
+		for _, f := range withAnons(cp) {
+			eachInstr(f, func(i ssa.Instruction) {
+				c, ok := i.(*ssa.Call)
+				if !ok {
+					return
+				}
+				nm := strings.SplitN(calleeName(c.Common()), "[", 2)[0]
+				if !(strings.HasPrefix(nm, "slices.Index") || strings.HasPrefix(nm, "strings.Index") || strings.HasPrefix(nm, "strings.LastIndex") || strings.HasPrefix(nm, "bytes.Index") || strings.HasPrefix(nm, "bytes.LastIndex")) {
+					return
+				}
+				for _, ref := range *c.Referrers() {
+					use := ""
+					switch u := ref.(type) {
+					case *ssa.Slice:
+						if u.Low == ssa.Value(c) || u.High == ssa.Value(c) || u.Max == ssa.Value(c) {
+							use = "slice bound"
+						}
+					case *ssa.IndexAddr:
+						if u.Index == ssa.Value(c) {
+							use = "index"
+						}
+					case *ssa.Index:
+						if u.Index == ssa.Value(c) {
+							use = "index"
+						}
+					}
+					if "" == use {
+						continue
+					}
+					n++
+					cc := fmt.Sprintf("%s:%s#%d", fnName(f), nm, n)
+					tested := false
+					for _, b := range f.Blocks {
+						ifi := blockIf(b)
+						if nil == ifi {
+							continue
+						}
+						bo, isBo := ifi.Cond.(*ssa.BinOp)
+						if !isBo || (bo.X != ssa.Value(c) && bo.Y != ssa.Value(c)) {
+							continue
+						}
+						if edgeDominates(ifi, 0, ref) || edgeDominates(ifi, 1, ref) {
+							tested = true
+						}
+					}
+					if tested {
+						rIdx.OK(cc, posOf(ref), "compared before it is used")
+					} else {
+						rIdx.Bad(cc, posOf(ref), "the result of %s is used as %s without having been tested: it is −1 when nothing is found (a script which is all comments, an empty one), and the conversion panics", nm, use)
+					}
+				}
+			})
+		}
+		if 0 == n {
+			rIdx.OK(fnName(cp)+":no-search-bounds", cp.Pos(), "no search result is used as an index or bound")
+		}
+	}
 
 	/* 4. Name and buffers. */
 	/* Every name derived from the file's name by cutting a suffix is
